@@ -44,12 +44,17 @@ SYM_RIGHT = ["CC=O", "CC=O.[Cl-]", "CCN.CNC"]
 _FAM = {}
 
 
+# notations that RDKit's clean-up step rewrites to the charge-separated form (the same molecule after parsing)
+FIVE_VALENT = {"O=[N+]([O-])c1ccccc1": ["O=N(=O)c1ccccc1", "c1ccccc1N(=O)=O"]}
+
+
 def family(mol):
     """[(spelling, kind)] of one alphabet molecule, canonical spelling first"""
     if mol not in _FAM:
         out, seen = [], set()
         for kind, ss in (
             ("rooted", universe.rooted_spellings(mol)),
+            ("five-valent", [x for x in FIVE_VALENT.get(mol, []) if oracle.canon(x) == oracle.canon(mol)]),
             ("kekule", [universe.kekule_spelling(mol)]),
             ("explicit-h", [universe.explicit_h_spelling(mol)]),
             ("mapped", universe.mapped_spellings(mol)),
